@@ -87,6 +87,10 @@ def quiet():
 
 
 # ---- calls of the helpers ------------------------------------------------------------------------------------------
+# the plotted window (x_max, y_max) is a view setting: the curves carry the node positions and the simulated values whatever it is
+XMAX = ({}, {"x_max": 0.25}, {"x_max": 2.0, "y_max": 0.5})
+
+
 def call_pseudo(res, every: int, rescale: bool, own_axes: bool = False):
     from bluebonnet.plotting import plot_pseudopressure  # noqa: PLC0415
 
@@ -96,12 +100,12 @@ def call_pseudo(res, every: int, rescale: bool, own_axes: bool = False):
             if own_axes:
                 import matplotlib.pyplot as plt  # noqa: PLC0415
 
-                ax = plot_pseudopressure(res, every=every, rescale=rescale)
+                ax = plot_pseudopressure(res, every=every, rescale=rescale, **XMAX[every % 3])
                 out = lines(ax)
                 plt.close("all")
                 return out
             _, ax = new_axes()
-            ax2 = plot_pseudopressure(res, every=every, rescale=rescale, ax=ax)
+            ax2 = plot_pseudopressure(res, every=every, rescale=rescale, ax=ax, **XMAX[every % 3])
             return lines(ax2)
     finally:
         w.__exit__(None, None, None)
